@@ -261,6 +261,10 @@ func C11(c *core.Ctx) {
 	if c.HasViolation() || c.Expired() {
 		return
 	}
+	c11odd(c)
+	if c.HasViolation() || c.Expired() {
+		return
+	}
 	c11sched(c)
 }
 
